@@ -211,6 +211,9 @@ fn starts_with_ci(a: &str, prefix: &str) -> bool {
 
 pub fn gen_u32(rng: &mut Rng) -> u32 {
     const B: &[u32] = &[0, 1, 2, 9, 10, 0x7fff_ffff, 0x8000_0000, 0xffff_fffe, 0xffff_ffff];
+    if let Some(c) = crate::srcdict::int_le(rng, u32::MAX as u64, 24) {
+        return c as u32;
+    }
     if rng.chance(1, 2) {
         *rng.pick(B)
     } else if rng.chance(1, 3) {
@@ -231,6 +234,9 @@ pub fn gen_u32(rng: &mut Rng) -> u32 {
 
 pub fn gen_u64(rng: &mut Rng) -> u64 {
     const B: &[u64] = &[0, 1, 1 << 32, 1 << 63, u64::MAX - 1, u64::MAX];
+    if let Some(c) = crate::srcdict::int_le(rng, u64::MAX, 24) {
+        return c;
+    }
     if rng.chance(1, 2) {
         *rng.pick(B)
     } else if rng.chance(1, 3) {
@@ -359,6 +365,11 @@ fn adversarial(rng: &mut Rng, cfg: &GenCfg, utf8: bool) -> Vec<u8> {
 }
 
 fn ordinary_len(rng: &mut Rng, cfg: &GenCfg) -> usize {
+    // a constant of /repo's sources as a string length (srcdict.rs)
+    let cap = if crate::srcdict::focus() != crate::srcdict::Focus::None { 70_000 } else { 5_000 };
+    if let Some(c) = crate::srcdict::int_le(rng, cap, 48) {
+        return c as usize;
+    }
     if rng.chance(1, 50) {
         // lengths at which 8-bit / 16-bit lengths, stack buffers and 'short string' paths change
         const L: &[usize] = &[30, 31, 63, 64, 65, 127, 128, 255, 256, 257, 999, 1000, 1023, 1024, 1025, 4095, 4096, 4097];
@@ -374,6 +385,9 @@ fn ordinary_len(rng: &mut Rng, cfg: &GenCfg) -> usize {
 
 /// Bytes for an `nstring` position: anything without NUL.
 pub fn gen_bytes(rng: &mut Rng, cfg: &GenCfg) -> Vec<u8> {
+    if let Some(v) = crate::srcdict::content(rng, 40, false) {
+        return v;
+    }
     if cfg.adversarial && rng.bool() {
         return adversarial(rng, cfg, false);
     }
@@ -391,6 +405,11 @@ pub fn gen_bytes(rng: &mut Rng, cfg: &GenCfg) -> Vec<u8> {
 
 /// Valid UTF-8 without NUL for `string_utf8` / `nstring_utf8` / `astring_utf8` positions.
 pub fn gen_utf8(rng: &mut Rng, cfg: &GenCfg) -> String {
+    if let Some(v) = crate::srcdict::content(rng, 40, true) {
+        if let Ok(s) = String::from_utf8(v) {
+            return s;
+        }
+    }
     if cfg.adversarial && rng.bool() {
         return String::from_utf8(adversarial(rng, cfg, true)).expect("adversarial utf8");
     }
@@ -440,6 +459,12 @@ fn opt_utf8(rng: &mut Rng, cfg: &GenCfg) -> Option<Cow<'static, str>> {
 
 /// Non-empty atom (ATOM-CHARs only).
 pub fn gen_atom(rng: &mut Rng, cfg: &GenCfg) -> String {
+    if let Some(v) = crate::srcdict::content(rng, 40, true) {
+        let a: String = v.into_iter().filter(|c| is_atom_char(*c)).map(|c| c as char).collect();
+        if !a.is_empty() {
+            return a;
+        }
+    }
     let len = slen(rng, cfg.max_str);
     let all = atom_chars();
     let common = rng.chance(3, 4);
